@@ -10,7 +10,7 @@ SRCS = ["alg/sha256.c", "alg/sha1.c", "alg/md5.c", "alg/sha256_shani.c", "alg/sh
         "cpusupport/cpusupport_x86_aesni.c", "cpusupport/cpusupport_x86_shani.c", "cpusupport/cpusupport_x86_sse2.c",
         "cpusupport/cpusupport_x86_ssse3.c",
         "util/insecure_memzero.c", "util/warnp.c"]
-LDFLAGS = ["-Wl,--wrap=malloc,--wrap=free", "-lcrypto"]
+LDFLAGS = ["-Wl,--wrap=malloc,--wrap=free,--wrap=strdup", "-lcrypto"]
 P = (1 << 2048) - 1
 
 
@@ -23,7 +23,10 @@ def gen_wipe(rng, tier, mult):
         ops = []
         for _ in range(r.range(1, 4)):
             k = r.below(100)
-            if k < 20:
+            if k < 6:
+                # util/insecure_memzero.c itself: every alignment, lengths that are not multiples of the word size
+                ops.append("memzero %d %d" % (r.range(0, 15), r.choice([0, 1, 2, 3, 4, 5, 6, 7, 8, 9, 15, 16, 17, 31, 33, 63, 65, r.range(0, 300)])))
+            elif k < 20:
                 chunks = [hx(r.bytes(r.choice(lens))) for _ in range(r.range(0, 4))]
                 ops.append(("hash %s %s" % (r.choice(["sha256", "sha1", "md5"]), " ".join(chunks))).rstrip())
             elif k < 40:
